@@ -764,6 +764,14 @@ func errorClassifiers(c *Ctx) map[*ssa.Function]bool {
 						if g, ok := u.X.(*ssa.Global); ok && (g.Name() == "ErrEndOfIteration" || g.Name() == "ErrContinueIteration") {
 							cmps = true
 						}
+						// an element of a package-level table that is initialised with the sentinels
+						if ia, ok := u.X.(*ssa.IndexAddr); ok {
+							if tl, ok := ia.X.(*ssa.UnOp); ok {
+								if g, ok := tl.X.(*ssa.Global); ok && sentinelTable(c, g) {
+									cmps = true
+								}
+							}
+						}
 					}
 				}
 			}
@@ -906,4 +914,35 @@ func c04LoopSignals(c *Ctx, r *Result) {
 		}
 	}
 	r.Floor("R04h", n, 2)
+}
+
+// sentinelTable: the package-level variable g is assigned in its package's initialiser, and that
+// initialiser reads both loop sentinels (a table such as []error{ErrEndOfIteration, …}).
+func sentinelTable(c *Ctx, g *ssa.Global) bool {
+	if g.Pkg == nil {
+		return false
+	}
+	initFn := g.Pkg.Func("init")
+	if initFn == nil {
+		return false
+	}
+	stores, end, cont := false, false, false
+	allInstrs(initFn, func(in ssa.Instruction) {
+		switch x := in.(type) {
+		case *ssa.Store:
+			if x.Addr == ssa.Value(g) {
+				stores = true
+			}
+		case *ssa.UnOp:
+			if sg, ok := x.X.(*ssa.Global); ok {
+				if sg.Name() == "ErrEndOfIteration" {
+					end = true
+				}
+				if sg.Name() == "ErrContinueIteration" {
+					cont = true
+				}
+			}
+		}
+	})
+	return stores && end && cont
 }
